@@ -625,14 +625,17 @@ fn apply_drop_shadow(
         usvg::filter::ColorInterpolation::LinearRGB => shadow_pixmap.into_linear_rgb(),
     }
 
-    pixmap.draw_pixmap(
-        dx as i32,
-        dy as i32,
-        shadow_pixmap.as_ref(),
-        &tiny_skia::PixmapPaint::default(),
-        tiny_skia::Transform::identity(),
-        None,
-    );
+    // An offset beyond the image leaves nothing to draw (and would overflow `x + width` in `draw_pixmap`).
+    if dx.abs() < pixmap.width() as f32 && dy.abs() < pixmap.height() as f32 {
+        pixmap.draw_pixmap(
+            dx as i32,
+            dy as i32,
+            shadow_pixmap.as_ref(),
+            &tiny_skia::PixmapPaint::default(),
+            tiny_skia::Transform::identity(),
+            None,
+        );
+    }
 
     pixmap.draw_pixmap(
         0,
@@ -684,14 +687,17 @@ fn apply_offset(
     }
 
     let mut pixmap = tiny_skia::Pixmap::try_create(input.width(), input.height())?;
-    pixmap.draw_pixmap(
-        dx as i32,
-        dy as i32,
-        input.as_ref().as_ref(),
-        &tiny_skia::PixmapPaint::default(),
-        tiny_skia::Transform::identity(),
-        None,
-    );
+    // An offset beyond the image leaves nothing to draw (and would overflow `x + width` in `draw_pixmap`).
+    if dx.abs() < pixmap.width() as f32 && dy.abs() < pixmap.height() as f32 {
+        pixmap.draw_pixmap(
+            dx as i32,
+            dy as i32,
+            input.as_ref().as_ref(),
+            &tiny_skia::PixmapPaint::default(),
+            tiny_skia::Transform::identity(),
+            None,
+        );
+    }
 
     Ok(Image::from_image(pixmap, input.color_space))
 }
